@@ -73,12 +73,15 @@ def mon_hull(sc, obs):
     if any(x[3] is None for x in sts):
         return ("upward + downward complete", "raised", None)
     fin = sts[-1][3]
+    reported = bool(obs[-1][0]) if sc[4][-1][0] == 9 else any(l > u for (l, u) in fin)
     if len(set(ops)) != len(ops):
         return None
     exp = hull_oracle(kd, b, ws, st0[ci], [st0[j] for j in ops])
     if exp is None:
         if not any(l > u for (l, u) in [fin[ci]] + [fin[j] for j in ops]):
             return (f"no assignment satisfies the given bounds: the step reports a contradiction at the connective or one of its operands", f"connective {fin[ci]}, operands {[fin[j] for j in ops]}", None)
+        if not reported:
+            return (f"no assignment satisfies the given bounds: has_contradiction() is True after the step", f"has_contradiction() = False with connective {fin[ci]}, operands {[fin[j] for j in ops]}", None)
         return None
     yh, hs = exp
     if fin[ci] != yh:
@@ -112,7 +115,7 @@ def gen_hull(rng, n):
                 l, u = sorted((rng.choice(G8), rng.choice(G8)))
                 bb = [l, u]
             data.append([i, bb])
-        scs.append([3, kb, [ar], data, [[1, ar], [2, ar, -1]]])
+        scs.append([3, kb, [ar], data, [[1, ar], [2, ar, -1], [9]]])
     return scs
 
 
@@ -138,7 +141,7 @@ def check_C03(ctx):
     ctx.assumptions.append("proved for And/Or/Implies (every arity, weights >= 0, any bias, alpha = 1): not tighter, connective interval exact, every operand interval exact (zero-weight operands included), contradiction when infeasible")
     return ctx.finish("proof", pr, st, rule="single connective (And/Or arity 2-4, Implies), alpha = 1, unit or weighted parameters (weights incl. 0, bias 1/2..2), bounds on the 1/8 grid / classical / absent for the connective and every operand; "
                       "ops = connective.upward(); connective.downward(); monitor: an independent exact interval-arithmetic oracle computes the hull of the feasible set (or its emptiness) and demands equality for the connective and for every operand, "
-                      "and a crossed bound somewhere when the feasible set is empty; first-order part: one And/Or/Implies over 2-3 predicates with different variable tuples (join path), complete fact tables over 2-3 constants with 0/10/25% crossed rows, facts on the connective; upward then downward(all / one operand); monitor: every operand row = old bounds met with the inverse of every non-contradictory grounding reading it (two-sided; groundings with a crossed bound or a not-yet-existing operand row may or may not contribute)")
+                      "and a crossed bound somewhere plus has_contradiction() == True when the feasible set is empty; first-order part: one And/Or/Implies over 2-3 predicates with different variable tuples (join path), complete fact tables over 2-3 constants with 0/10/25% crossed rows, facts on the connective; upward then downward(all / one operand); monitor: every operand row = old bounds met with the inverse of every non-contradictory grounding reading it (two-sided; groundings with a crossed bound or a not-yet-existing operand row may or may not contribute)")
 
 
 CHECKS = {"C03": check_C03}
